@@ -44,6 +44,10 @@ PROF_LIVE = dict(limited_only=True, backlog=True, stop_p=.1, n_p=.05, ends_p=.05
 # ... the connection drops while the first tasks of a long backlog of valid, slow messages are running
 PROF_LIVE_SAT = dict(limited_only=True, backlog=True, backlog_extra=6, faults=False, live_early=.7, stop_p=.05, n_p=0, ends_p=.05, wtt_p=.05,
                      outage_p=0, aw_p=.03, A_choices=[1, 2, 2, 3, 3, 4], P_choices=[0, 0, 1, 1, 2, 3])
+# one Receiver object that listens again after listen() failed, mostly with every slot busy (recv_props.gen_relisten, mode fault
+# only: the exit of a prefetcher that was stopped hands one prefetch permit too many to a next session - a second listen() after a
+# graceful stop is not promised the bound)
+PROF_RELISTEN = dict(faults=False, outage_p=.05, aw_p=.05, relisten_any_p=.15, relisten_stop_p=0)
 
 
 PROC_TAGS = ("cb.start", "cb.end", "hook.pre", "hook.post", "hook.post_save", "hook.on_error", "hook.aw", "hook.aw.end", "body.in",
@@ -61,6 +65,8 @@ def oracle(sc, obs):
     if not R.limited(sc):
         return out
     f = R.Facts(sc, obs)
+    if f.limit_only:
+        return out          # (one Receiver object listening again after a graceful stop: no claim, see PROF_RELISTEN)
     bound = sc["A"] + sc["P"] + 1
     last, cbended, pending = {}, set(), {}
     for k, e in enumerate(f.raw):
@@ -79,14 +85,20 @@ def oracle(sc, obs):
     # Under run_receiver_task (sc["live"]) "a worker" is read as one listening session (the reading that demands less): the count
     # is kept per session - messages a failed session left unfinished (still running, or dropped with its hand-over queue) are
     # not counted against the session that replaced it.  In an ordinary run there is one session.
+    # ONE Receiver object that listens several times (recv_props.gen_relisten) is one worker over all its sessions: one count -
+    # what an earlier session left running counts on; what went down with a failed session's hand-over queue (taken, never handed
+    # to a callback) stops counting when the next session begins.
+    wkey = (lambda i: 0) if f.same_rcv else f.session_of
     unfin, peak = {}, 0
     when = None
     late = []
     for k, e in enumerate(f.raw):
         if e[1] == "TAKE":
-            unfin[f.session_of(e[2])] = unfin.get(f.session_of(e[2]), 0) + 1
+            unfin[wkey(e[2])] = unfin.get(wkey(e[2]), 0) + 1
+        elif e[1] == "SESSION" and f.same_rcv:
+            unfin[0] = unfin.get(0, 0) - sum(1 for i in f.dropped if f.sess[i] == e[2] - 1)
         for i in fin_at.get(k, []):
-            unfin[f.session_of(i)] = unfin.get(f.session_of(i), 0) - 1
+            unfin[wkey(i)] = unfin.get(wkey(i), 0) - 1
             if e[1] != "cb.end":
                 late.append(i)
         if unfin and max(unfin.values()) > peak:
@@ -147,6 +159,8 @@ def run(ctx):
     scs = [R.gen_scenario(r, PROF if i % 4 else PROF_MIX) for i in range(n)]
     r4 = ctx.sub_rng("gen-live")             # own stream: the scenarios above are what they were
     scs += [R.gen_live(r4, PROF_LIVE_SAT if i % 2 else PROF_LIVE) for i in range(ctx.n(80, 4000))]
+    r6 = ctx.sub_rng("gen-relisten")         # own stream: ONE Receiver object over several listen() sessions
+    scs += [R.gen_relisten(r6, PROF_RELISTEN) for _ in range(ctx.n(30, 1500))]
     broken = explore(ctx, rep, scs, "main")
     if not ctx.quick:
         broken = explore(ctx, rep, R.grid_scenarios(), "grid") or broken
